@@ -707,6 +707,7 @@ mod decoders {
 
     pub fn print_seeds(_seed: u64) {
         use echo_wasm_abi::{encode_cbor, encode_value};
+        println!("meta control_op={} import_op={}", echo_wasm_abi::CONTROL_INTENT_V1_OP_ID, echo_wasm_abi::IMPORT_SUFFIX_INTENT_V1_OP_ID);
         // ABI values / DTOs
         let v = Value::Map(vec![
             (Value::Text("a".into()), Value::Array(vec![Value::Integer(1.into()), Value::Bytes(vec![1, 2, 3]), Value::Float(1.5)])),
@@ -837,6 +838,11 @@ mod decoders {
         }.canonicalized().to_payload_bytes());
         seed("wal-drop", &StrandDropRecord { topology_intent_id: h("ti"), strand_id: warp_core::StrandId::from_bytes(h("st")), child_worldline_id: warp_core::WorldlineId::from_bytes(h("cw")), final_tick: warp_core::WorldlineTick::from_raw(8), drop_receipt_digest: h("d"), issuer_evidence_digest: h("i"), idempotency_key_digest: None }.to_payload_bytes());
         seed("wal-shell", &BraidShellRetentionRecord { topology_intent_id: h("ti"), braid_id: h("b"), shell_digest: h("s"), material_digest: h("m"), basis_digest: h("ba"), outcome_kind: TopologyImportOutcomeKind::Derived, retention_posture_digest: h("r"), witness_digest: h("w"), idempotency_key_digest: Some(h("k")) }.to_payload_bytes());
+        seed("wal-suffix", &SuffixImportRecord {
+            import_id: h("i"), remote_suffix_family_digest: h("f"), authorship_evidence_digest: h("a"), basis_anchor_digest: h("b"),
+            bundle_digest: h("bu"), source_shell_digest: h("ss"), target_basis_digest: h("tb"), outcome_kind: TopologyImportOutcomeKind::Plural,
+            import_shell_digest: h("is"), retention_posture_digest: h("rp"), idempotency_key_digest: h("k"),
+        }.to_payload_bytes());
         if let Some(b) = wal_segment_seed() {
             seed("wal-segment-ro", &b);
             seed("wal-segment-rw", &b);
@@ -1095,15 +1101,21 @@ fn run_chunk(exe: &str, cases: &[String], o: &Opts) -> Vec<String> {
     while pos < cases.len() {
         let end = (pos + o.batch).min(cases.len());
         let (lines, verdict) = run_child(exe, &cases[pos..end], o);
+        let first = lines.is_empty();
         pos += lines.len();
         out.extend(lines);
         if let Some(v) = verdict {
-            // isolate: the in-flight case alone in a fresh child decides
-            let (solo, v2) = run_child(exe, &cases[pos..pos + 1], o);
-            let line = if let Some(l) = solo.into_iter().next() {
-                format!("{l} note=died-in-batch-only:{}", kv(&v).get("class").cloned().unwrap_or_default())
+            // isolate: the in-flight case alone in a fresh child decides (unless it already was
+            // the first case of a fresh child, or it stalled: a stall is not re-timed)
+            let line = if first || v.contains("class=TIMEOUT") {
+                v
             } else {
-                v2.unwrap_or(v)
+                let (solo, v2) = run_child(exe, &cases[pos..pos + 1], o);
+                if let Some(l) = solo.into_iter().next() {
+                    format!("{l} note=died-in-batch-only:{}", kv(&v).get("class").cloned().unwrap_or_default())
+                } else {
+                    v2.unwrap_or(v)
+                }
             };
             out.push(line);
             pos += 1;
@@ -1162,7 +1174,7 @@ fn main() {
         decoders::print_seeds(args[2].parse().unwrap_or(1));
         return;
     }
-    let mut o = Opts { cap: 256 << 20, stack: 8 << 20, timeout_ms: 20_000, jobs: 16, batch: 400, c: 256, c0: 64 << 10 };
+    let mut o = Opts { cap: 256 << 20, stack: 8 << 20, timeout_ms: 10_000, jobs: 16, batch: 400, c: 256, c0: 64 << 10 };
     let mut i = 2;
     while i + 1 < args.len() {
         let v = &args[i + 1];
@@ -1182,22 +1194,20 @@ fn main() {
     let cases = read_cases();
     let n = cases.len();
     let jobs = o.jobs.max(1).min(n.max(1));
-    let chunk = (n + jobs - 1) / jobs.max(1);
+    // round-robin assignment: crash-heavy decoders are spread over all workers
     let mut handles = Vec::new();
     for j in 0..jobs {
-        let lo = (j * chunk).min(n);
-        let hi = ((j + 1) * chunk).min(n);
-        let part: Vec<String> = cases[lo..hi].to_vec();
+        let part: Vec<String> = cases.iter().skip(j).step_by(jobs).cloned().collect();
         let exe = exe.clone();
         let o = o.clone();
         handles.push(std::thread::spawn(move || run_chunk(&exe, &part, &o)));
     }
+    let parts: Vec<Vec<String>> = handles.into_iter().map(|h| h.join().expect("worker")).collect();
     let stdout = std::io::stdout();
     let mut out = stdout.lock();
-    for h in handles {
-        for l in h.join().expect("worker") {
-            let orc = oracle(&l, &o);
-            let _ = writeln!(out, "{l} oracle={orc}");
-        }
+    for i in 0..n {
+        let l = &parts[i % jobs][i / jobs];
+        let orc = oracle(l, &o);
+        let _ = writeln!(out, "{l} oracle={orc}");
     }
 }
